@@ -93,3 +93,12 @@ TABLE['C11'] = {
     'assumptions': ['an inserted value is not already part of a tree (value.parent is None)'],
     'explanation': 'Tree invariant node_ok for EVERY map object (children record container and name; a name is a handle in some layer or a sub-map, never both), preserved by __setitem__ (three nested loop invariants) and clear; get/__getitem__ agreement by a ghost-client lemma.',
 }
+
+TABLE['C17'] = {
+    'modules': ['tree_spec'], 'replay': 'tree_replay', 'level': 'other',
+    'bounded_hook': 'pyvc.bounded_native',
+    'bound': 'all histories of up to 3 operations (4 in the thorough tier) over: assignments of counting handles (loading None, 0, [], a falsy object), empty and pre-populated maps under keys of depth 1-3 over {a, b}, pushing a handle layer, followed by a full comparison of get_static_map() with the map (item, attribute and get access at every node, absent names, setattr/delattr on every node)',
+    'trusted_base': T_STATE,
+    'assumptions': ['names that collide with members of StaticResourceMap are excluded (as in the statement)'],
+    'explanation': 'Immutability (__setattr__/__delattr__ raise unconditionally and change nothing) is discharged deductively. The mirror clause (get_static_map builds a class with __slots__ per map, recursively) is outside the verifier subset and is checked by the BOUNDED native stand-in only: not proved.',
+}
